@@ -96,8 +96,11 @@ class Workload(object):
             self.schema = U.build_schema(self.desc)
             if hasattr(self.schema, 'tagMap'):
                 self.schema.tagMap
+            problem = U.schema_problem(self.schema)
         except Exception as e:   # postponed schema errors: generator's fault, not the library's
             raise Skip('schema-build:%s' % type(e).__name__)
+        if problem:
+            raise Skip('schema-ill-formed:%s' % problem.split(':')[0])
         self.values = []
         self.encodings = []
         for v in w['values']:
